@@ -110,10 +110,20 @@ IsAscii(x) == \A i \in 1..Len(x) : x[i] < 128
 AllDigits(x) == Len(x) > 0 /\ \A i \in 1..Len(x) : x[i] >= 48 /\ x[i] <= 57
 DecVal(x) == FoldL(LAMBDA acc, c : AddSmall(MulSmall(acc, 10), c - 48), Zero, x)
 \* JSON text (string form as FromStr reads it, or a plain number)
+\* Accepted JSON texts: optional JSON whitespace around either a string (read as FromStr reads it) or a plain
+\* run of digits.  Strings with escapes are outside the model (unconstrained); every other text is an error.
+IsJsonWs(c) == c \in {32, 9, 10, 13}
+JsonTrim(x) ==
+  LET a == FirstIdx(x, LAMBDA c : ~IsJsonWs(c))
+      b == LastIdx(x, LAMBDA c : ~IsJsonWs(c))
+  IN IF a = 0 THEN <<>> ELSE SubSeq(x, a, b)
+HasBackslash(x) == \E i \in 1..Len(x) : x[i] = 92
 JsonDenotes(x, v, n) ==
   /\ Lt2(v, n)
-  /\ (IsQuoted(x) => FromStrOutcome(<<"ok", v>>, Unquote(x), n))
-  /\ (AllDigits(x) => v = DecVal(x))
+  /\ LET t == JsonTrim(x) IN
+       IF HasBackslash(t) THEN TRUE
+       ELSE IF IsQuoted(t) THEN FromStrOutcome(<<"ok", v>>, Unquote(t), n)
+       ELSE AllDigits(t) /\ v = DecVal(t)
 
 \* ---- postgres wire formats ------------------------------------------------
 \* signed big-endian integer of k bytes: <<negative?, magnitude>>
@@ -183,8 +193,13 @@ PgNumericDenotes(x, v) ==
         /\ nd <= w + 1
         /\ \A i \in 1..nd : ds[i] < 10000
         /\ v = FoldL(LAMBDA acc, i : AddSmall(MulSmall(acc, 10000), IF i <= nd THEN ds[i] ELSE 0), Zero, pos)
-PgTextDenotes(x, v, n) == (IsAscii(x) /\ Len(x) > 0) => FromStrOutcome(<<"ok", v>>, x, n)
-PgJsonDenotes(x, v, n) == IsQuoted(x) => FromStrOutcome(<<"ok", v>>, Unquote(x), n)
+\* text columns: the bytes are the FromStr text itself (digits are ASCII, so a non-ASCII text is never a value)
+PgTextDenotes(x, v, n) == IsAscii(x) /\ FromStrOutcome(<<"ok", v>>, x, n)
+\* JSON / JSONB columns: a text that starts and ends with a quote is unquoted once, anything else is read as it is
+PgJsonDenotes(x, v, n) ==
+  /\ IsAscii(x)
+  /\ IF Len(x) >= 2 /\ x[1] = 34 /\ x[Len(x)] = 34 THEN FromStrOutcome(<<"ok", v>>, Unquote(x), n)
+     ELSE FromStrOutcome(<<"ok", v>>, x, n)
 PgDenotes(t, x, v, n) ==
   /\ Lt2(v, n)
   /\ IF t = "pg_bool" THEN (x = <<0>> /\ IsZero(v)) \/ (x = <<1>> /\ v = One)
